@@ -7,6 +7,4 @@ Mutant = 1
 INIT Init
 NEXT Next
 INVARIANT I_Raw
-INVARIANT I_Scaled
-INVARIANT I_Arith
 CHECK_DEADLOCK FALSE
